@@ -7,7 +7,9 @@ import TbotVerif.Props.C08Mon
         operation feeds exactly the delivered chunks, in order, through `writeStream`.
     (2) text level: `asciiT_decodeReplace`, `asciiT_fragments` (`C08Text.lean`), `fwdFor_text`.
     (3) case level: `case_spec_partial`; the full statement is FALSE for the model (and for the
-        code it mirrors) — `case_spec_full_is_false`. -/
+        code it mirrors) — `case_spec_full_is_false`.
+    (4) overlapping attachments that all show the prompt, ended in any order (`streamExitAt`):
+        `C08OverlapAttach.lean` (`case_spec_overlapping`, `stream_gets_exactly_its_window`). -/
 
 namespace C08
 open Chan Spec C03 ChanCase
